@@ -18,9 +18,11 @@ enum
     L_ZERO,
     L_SUBNORMAL_NORM,
     L_SIGNED_ZERO,
-    L_HUGE
+    L_HUGE,
+    L_NEAR_UNIT,
+    L_RATIO_SQ_OVERFLOW
 };
-#define C08_LABELS "tiny_path", "square_underflows", "span_gt_2^20", "near_2min_threshold", "single_nonzero", "zero_vector", "subnormal_norm", "signed_zero_component", "near_sqrt_max"
+#define C08_LABELS "tiny_path", "square_underflows", "span_gt_2^20", "near_2min_threshold", "single_nonzero", "zero_vector", "subnormal_norm", "signed_zero_component", "near_sqrt_max", "norm_within_2^-6_of_1_not_exact", "component_ratio_above_sqrt_max"
 
 template <class T> struct Lim
 {
@@ -32,7 +34,7 @@ template <class T> struct Lim
 template <class V, class T, int N> static void gen_vec (vp::Ctx& c, V& v, int& pattern)
 {
     vp::Src& s = c.s;
-    pattern    = (int) s.below (8);
+    pattern    = (int) s.below (10);
     int lo = Lim<T>::emin (), hi = Lim<T>::emax ();
     auto comp = [&] (int e) -> T {
         if (e > hi) e = hi;
@@ -87,6 +89,46 @@ template <class V, class T, int N> static void gen_vec (vp::Ctx& c, V& v, int& p
             for (int i = 0; i < N; ++i)
                 v[i] = comp (hi - (int) s.below (3));
             break;
+        case 8: // norm close to, but not exactly, 1: |v| = 1 + d, |d| = 2^-k u, k = 6 .. digits
+        {
+            quad w[N], n2 = 0;
+            for (int i = 0; i < N; ++i)
+            {
+                double u = s.uniform (-1, 1);
+                if (s.chance (48)) u = 0;
+                w[i] = (quad) u;
+                n2 += w[i] * w[i];
+            }
+            if (n2 == 0)
+            {
+                w[0] = 1;
+                n2   = 1;
+            }
+            int    k  = (int) s.range (6, std::numeric_limits<T>::digits);
+            double u2 = s.uniform (0.5, 1);
+            bool   up = s.coin ();
+            quad   d  = (quad) std::ldexp (u2, -k);
+            quad   f  = (up ? 1 + d : 1 - d) / sqrtq (n2);
+            for (int i = 0; i < N; ++i)
+                v[i] = (T) (w[i] * f);
+            break;
+        }
+        case 9: // two components whose ratio exceeds sqrt(max) (the square of the ratio overflows), the rest smaller or zero
+        {
+            int big = (int) s.below (N);
+            int sm  = (int) s.below (N - 1);
+            if (sm >= big) ++sm;
+            int gap = (int) s.range (std::numeric_limits<T>::max_exponent / 2 + 1, hi - lo);
+            int eb  = (int) s.range (lo + gap, hi);
+            for (int i = 0; i < N; ++i)
+            {
+                unsigned m = (unsigned) s.below (3);
+                v[i]       = m == 0 ? (T) 0 : comp (eb - gap - (int) s.below (20));
+            }
+            v[big] = comp (eb);
+            v[sm]  = comp (eb - gap);
+            break;
+        }
         default: // small integers / zeros (exact cases incl. the zero vector)
             for (int i = 0; i < N; ++i)
                 v[i] = (T) s.range (-3, 3);
@@ -136,7 +178,11 @@ template <class V, class T, int N> static void length_case (vp::Ctx& c, const ch
     if (!allzero && norm < (quad) minN) c.label (L_SUBNORMAL_NORM);
     if (szero) c.label (L_SIGNED_ZERO);
     if (pattern == 6) c.label (L_HUGE);
-    c.nt (anysubsq || span || thr);
+    bool nearunit = !allzero && norm != 1 && qabs (norm - 1) < (quad) 0.015625;
+    if (nearunit) c.label (L_NEAR_UNIT);
+    bool ratio = !allzero && amin_nz > 0 && amax / amin_nz > sqrtq ((quad) std::numeric_limits<T>::max ());
+    if (ratio) c.label (L_RATIO_SQ_OVERFLOW);
+    c.nt (anysubsq || span || thr || nearunit);
 
     // 1. length
     T len = v.length ();
@@ -222,12 +268,12 @@ template <class V, class T, int N> static void length_case (vp::Ctx& c, const ch
 }
 
 #define C08_SUB(name, V, T, N, tname)                                                                         \
-    VP_RANDOM (name, 2500000, 40000000, "vectors from 8 pattern classes (equal / graded / full-range exponents from the smallest subnormal to sqrt(max)/2, single non-zero, 2*min threshold +-8 ulps, subnormal, near-top, small integers); oracle = quad norm; non-trivial = some square underflows or is subnormal, or magnitudes span > 2^20, or within 16 eps of the threshold") \
+    VP_RANDOM (name, 2500000, 40000000, "vectors from 10 pattern classes (equal / graded / full-range exponents from the smallest subnormal to sqrt(max)/2, single non-zero, 2*min threshold +-8 ulps, subnormal, near-top, small integers, norm = 1 +- 2^-k with k = 6..digits, two components with a ratio above sqrt(max)); oracle = quad norm; non-trivial = some square underflows or is subnormal, or magnitudes span > 2^20, or within 16 eps of the threshold, or norm within 2^-6 of 1 without being 1") \
     {                                                                                                         \
         length_case<V, T, N> (c, tname);                                                                      \
     }                                                                                                         \
     VP_LABELS (name, C08_LABELS)                                                                              \
-    VP_REQUIRE_LABELS (name, "tiny_path", "square_underflows", "span_gt_2^20", "near_2min_threshold", "single_nonzero", "zero_vector", "subnormal_norm")
+    VP_REQUIRE_LABELS (name, "tiny_path", "square_underflows", "span_gt_2^20", "near_2min_threshold", "single_nonzero", "zero_vector", "subnormal_norm", "norm_within_2^-6_of_1_not_exact", "component_ratio_above_sqrt_max")
 
 C08_SUB (vec2f, V2f, float, 2, "V2f")
 C08_SUB (vec3f, V3f, float, 3, "V3f")
